@@ -271,6 +271,18 @@ def filter_semantics(fn: ast.AST, atoms: List[str]) -> Optional[Dict[Tuple[bool,
                     return None
         if v in {x for s in stmts_local(loop.body) for x in assigned_names(s)} or loop.orelse:
             return None
+        # the loop may do nothing but decide and append: any other statement (a call on the element, a store) could change what the atoms
+        # say about the element between the test and the append -- then this is no longer a pure filter
+        for st in stmts_local(loop.body):
+            if isinstance(st, (ast.If, ast.Pass, ast.Continue)):
+                continue
+            if isinstance(st, ast.Expr) and isinstance(st.value, ast.Call):
+                fx = norm(st.value.func)
+                if fx == f"{out}.append" or fx.split(".")[0] in ("logger", "logging", "log"):
+                    continue
+            if isinstance(st, ast.Expr) and isinstance(st.value, ast.Constant):
+                continue
+            return None
         paths = enumerate_paths(loop.body)
         for combo in itertools.product([False, True], repeat=len(atoms)):
             env = {a.replace("{v}", v): b for a, b in zip(atoms, combo)}
